@@ -179,6 +179,33 @@ impl Runner {
                 let amt = (crate::world::num(&res) + op["off"].as_i64().unwrap_or(0)).max(1);
                 Some(json!({"k": "tx", "c": "engine", "m": "withdraw_margin", "s": t, "a": {"vamm": v, "amount": amt}}))
             }
+            "zero_equity" => {
+                // a DepositMargin (or WithdrawMargin) that brings the position's equity (margin + spot pnl - funding owed)
+                // to exactly `off` raw units
+                let v = op["v"].as_str().unwrap_or("vamm1").to_string();
+                let t = op["s"].as_str().unwrap_or("tr1").to_string();
+                let q = self.w.build_query("engine", "unrealized_pnl", &json!({"vamm": v, "trader": t, "opt": "spot_price"})).ok()?;
+                let r1 = self.w.query_raw("engine", &q).ok()?;
+                let r1 = self.w.rec.borrow().norm(&r1);
+                let pnl = crate::world::num(&r1["unrealized_pnl"]);
+                let post = self.out.last()?["post"].clone();
+                let p = post["eng"]["pos"][&v][&t].clone();
+                let d = 10i64.pow(self.w.dec);
+                let cpf = post["eng"]["vmap"][&v]["cpf"].as_array().and_then(|a| a.last()).map(crate::world::num).unwrap_or(0);
+                let owed_raw = (cpf - crate::world::num(&p["lupf"])) * crate::world::num(&p["size"]);
+                let owed = if owed_raw < 0 { -((-owed_raw) / d) } else { owed_raw / d };
+                let eq = crate::world::num(&p["margin"]) + pnl - owed;
+                let want = op["off"].as_i64().unwrap_or(0);
+                let native = self.w.native;
+                if eq < want {
+                    let amt = want - eq;
+                    Some(json!({"k": "tx", "c": "engine", "m": "deposit_margin", "s": t, "a": {"vamm": v, "amount": amt}, "funds": if native { amt } else { 0 }}))
+                } else if eq > want {
+                    Some(json!({"k": "tx", "c": "engine", "m": "withdraw_margin", "s": t, "a": {"vamm": v, "amount": eq - want}}))
+                } else {
+                    None
+                }
+            }
             "oracle_rel" => {
                 let v = op["v"].as_str().unwrap_or("vamm1").to_string();
                 let interval = op["interval"].as_i64().unwrap_or(3600);
@@ -196,7 +223,7 @@ impl Runner {
     /// execute one op; returns (ok, fault_fired)
     pub fn op(&mut self, op: &Value) -> (bool, bool) {
         let k = op["k"].as_str().unwrap_or("tx");
-        if k == "flatten" || k == "oracle_rel" || k == "open_lim" || k == "withdraw_rel" {
+        if k == "flatten" || k == "oracle_rel" || k == "open_lim" || k == "withdraw_rel" || k == "zero_equity" {
             return match self.resolve(op) {
                 Some(o) => self.op(&o),
                 None => (false, false),
